@@ -191,34 +191,38 @@ def run_case(case, ctx):
         kinds.add(label.split(':')[0])
         with open(part, 'wb') as f:
             f.write(content)
-        try:
-            r = SgzReader(part)
-        except monitors.ContractBreach as e:
-            bad.append({'sig': 'partial:open:short-buffer-handed-to-codec', 'detail': '%s: %s' % (label, e)})
-            continue
-        except Exception:  # noqa
-            counters['open_failed'] += 1
-            continue
-        try:
-            for op in ops:
-                counters['reads'] += 1
-                try:
-                    got = reads.run_op(r, op)
-                except monitors.ContractBreach as e:
-                    bad.append({'sig': 'partial:%s:short-buffer-handed-to-codec' % op[0], 'detail': '%s (%d bytes of %d): %s' % (label, len(content), L, e)})
-                    continue
-                if got[0] == 'exc':
-                    counters['raised'] += 1
-                elif got == truth[repr(op)]:
-                    counters['same'] += 1
-                else:
-                    bad.append({'sig': 'partial:%s:returns-data-differing-from-complete-file' % op[0],
-                                'detail': '%s%s on crash state %s (%d bytes of %d; data section ends at %d)' % (op[0], op[1:], label, len(content), L, sp.footer0)})
-        finally:
+        for preload in (False, True):
             try:
-                r.close()
+                r = SgzReader(part, preload=preload)
+            except monitors.ContractBreach as e:
+                bad.append({'sig': 'partial:open:short-buffer-handed-to-codec', 'detail': '%s: %s' % (label, e)})
+                continue
             except Exception:  # noqa
-                pass
+                counters['open_failed'] += 1
+                continue
+            tag = 'preload:' if preload else ''
+            try:
+                for op in (ops if not preload else [o for o in ops if not o[0].startswith(('gen_trace', 'get_tracefield'))]):
+                    counters['reads'] += 1
+                    try:
+                        got = reads.run_op(r, op)
+                    except monitors.ContractBreach as e:
+                        bad.append({'sig': 'partial:%s%s:short-buffer-handed-to-codec' % (tag, op[0]),
+                                    'detail': '%s (%d bytes of %d): %s' % (label, len(content), L, e)})
+                        continue
+                    if got[0] == 'exc':
+                        counters['raised'] += 1
+                    elif got == truth[repr(op)]:
+                        counters['same'] += 1
+                    else:
+                        bad.append({'sig': 'partial:%s%s:returns-data-differing-from-complete-file' % (tag, op[0]),
+                                    'detail': '%s%s on crash state %s (%d bytes of %d; data section ends at %d)'
+                                              % (op[0], op[1:], label, len(content), L, sp.footer0)})
+            finally:
+                try:
+                    r.close()
+                except Exception:  # noqa
+                    pass
         if len(bad) > 20:
             break
     counters['contract_evaluations'] = ctx['zfpy_proxy'].n_decompress
